@@ -194,6 +194,12 @@ func (w *World) oracleOnFip(m *simkube.Mutation) {
 	case oldF == nil || oldF.Key != newF.Key:
 		al := w.newAlloc(ip, newF.Key, m.By, newF.Reserved)
 		w.noteAllocUID(al, newF.UID)
+		if w.cloudStale[ip] {
+			// the record comes back for the very pod the provider's assignment belongs to (adoption): tracked again
+			if p := w.livePodWithKey(newF.Key); p != nil && p.Node != "" && p.Node == w.cloud[ip] && hasStr(p.IPs, ip) {
+				delete(w.cloudStale, ip)
+			}
+		}
 		if prev != nil && prev.BindTime {
 			al.BindTime = true // the IP entered the pool through a bind-time allocation; re-keying does not change that
 			al.BindReason = prev.BindReason
@@ -263,7 +269,15 @@ func (w *World) oracleOnFip(m *simkube.Mutation) {
 			}
 		}
 	}
-	if w.armed("C10") && w.withCloud && w.inNewestConf(ip) {
+	if w.armed("C10") && w.withCloud && newF == nil && prev != nil && !w.confSince(ip, prev.ConfLB) && w.cloud[ip] != "" {
+		// dropped because the configuration no longer holds the IP (no provider call is made for that): the provider's
+		// assignment is not tracked by galaxy-ipam any more
+		if w.cloudStale == nil {
+			w.cloudStale = map[string]bool{}
+		}
+		w.cloudStale[ip] = true
+	}
+	if w.armed("C10") && w.withCloud && prev != nil && w.confSince(ip, prev.ConfLB) && !w.cloudStale[ip] {
 		freed := newF == nil
 		moved := oldF != nil && newF != nil && oldF.Key != newF.Key && isPodKey(oldF.Key)
 		if (freed || moved) && w.cloud[ip] != "" {
@@ -303,7 +317,7 @@ func isPodKey(k string) bool {
 
 func (w *World) oracleOnCloudAssign(node, ip string) {
 	if w.armed("C10") {
-		if cur := w.cloud[ip]; cur != "" && cur != node {
+		if cur := w.cloud[ip]; cur != "" && cur != node && !w.cloudStale[ip] {
 			owner := ""
 			if f := w.storeFip(ip); f != nil {
 				owner = f.Key
